@@ -311,3 +311,60 @@ func ruleCompactedSegmentsArePublishedAsTheyAreReplaced(c *eng.Ctx) {
 	}
 	c.Check(publishes, "segments replaced by a compaction pass are swapped into the log's list as they are replaced", p.Pos(pass.Pos()), "the pass (or a callback it is given) updates commitLog.segments per replaced segment", "compactCleaner.compact replaces segments one by one — each Replace closes the old object — and nothing it reaches updates commitLog.segments: the list is swapped by Clean only when the whole pass is over")
 }
+
+// ruleListIsFetchedAfterTheWait (R01.14 extension): a parked committed reader looks its segments up in a list fetched AFTER
+// the wait — segments roll while it is parked, and the list fetched at the top of the call no longer holds them.
+func ruleListIsFetchedAfterTheWait(c *eng.Ctx) {
+	fn := c.Fn(cl + "(*committedReader).Read")
+	if fn == nil {
+		return
+	}
+	var waits []ssa.Instruction
+	for _, w := range eng.CallsIn(fn, cl+"committedReader.waitForHW") {
+		waits = append(waits, w.(ssa.Instruction))
+	}
+	if len(waits) == 0 {
+		c.Unresolved("the waitForHW call of committedReader.Read")
+		return
+	}
+	lookup := eng.IsCallTo(cl+"getHWPos", cl+"findSegment", cl+"findSegmentContains", cl+"findSegmentByBaseOffset")
+	q := &eng.PathQuery{Fn: fn, FromAfter: waits, Target: lookup, CutInstr: eng.IsCallTo(cl + "commitLog.Segments")}
+	w := q.Find()
+	c.Check(w == nil, "after a wait the segment list is fetched again before it is searched", c.Pos(waits[0]), "every path from waitForHW to getHWPos / findSegment passes r.cl.Segments()", "committedReader.Read searches, after waiting for the watermark, the segment list it fetched before the wait ("+w.String()+"): segments rolled while the reader was parked are not in it — the reader pins itself to the end of the old segment and stalls, or fails with ErrSegmentNotFound")
+}
+
+// ruleTelemetrySectionIsTakenKeyByKey (R19.5 extension): the configuration reader stores what the file says for each key it
+// finds; it never replaces the telemetry section as a whole (the defaults have the switch on), and the switch is stored from
+// the file's value only.
+func ruleTelemetrySectionIsTakenKeyByKey(c *eng.Ctx) {
+	fn := c.Fn("server.parseTelemetryConfig")
+	if fn == nil {
+		return
+	}
+	ok, why := true, ""
+	n := 0
+	eng.Instrs(fn, func(in ssa.Instruction) {
+		st, isSt := in.(*ssa.Store)
+		if !isSt {
+			return
+		}
+		fa, isFA := st.Addr.(*ssa.FieldAddr)
+		if !isFA {
+			return
+		}
+		switch eng.FieldNameOf(fa) {
+		case "Telemetry":
+			ok, why = false, "replaces config.Telemetry as a whole"
+		case "Enabled":
+			n++
+			if !eng.Call(-1, "github.com/spf13/viper.Viper.GetBool")(st.Val) {
+				ok, why = false, "stores something other than the file's value into Telemetry.Enabled"
+			}
+		}
+	})
+	if n == 0 && ok {
+		c.Unresolved("the store of Telemetry.Enabled in parseTelemetryConfig")
+		return
+	}
+	c.Check(ok, "the telemetry section is read key by key", c.P.Pos(fn.Pos()), "config.Telemetry.Enabled = v.GetBool(telemetry.enabled) and nothing else writes the switch", "parseTelemetryConfig "+why+": an explicit telemetry.enabled: false is replaced by the default (on) for some other content of the section — the opt-out is silently ignored")
+}
